@@ -358,6 +358,13 @@ class Shelxfile():
                     if self.debug or self.verbose:
                         print(f'*** CANNOT READ INCLUDE FILE {line} ***')
                     # Not sure if this is a good idea: del reslist[n]
+                except ValueError as e:
+                    # A file that includes itself (or is included a second time) is not expanded again. Like every
+                    # other problem of the input this is reported in verbose mode and raised in debug mode only:
+                    if self.debug or self.verbose:
+                        print(e)
+                    if self.debug:
+                        raise
         return included_line_nums
 
     def _read_included_file(self, includefiles: List[str], line: str):
